@@ -55,6 +55,8 @@ pub fn inspect(ctx: &mut Ctx, blob: &[u8], punctured: &BTreeSet<u8>, server: &pp
     // (iv) independent GGM descent from the exported seeds reproduces the server
     let probe = ggm_ref::hash_to_group(b"c11 probe");
     let probe_pt = pp::Point::from(probe);
+    let mut live = 0usize;
+    let mut disagree: Vec<u8> = Vec::new();
     for x in 0..=255u8 {
         let reference = ggm_ref::reference_eval(&st, x, &probe);
         let real = server.eval(&probe_pt, x, false).ok().map(|e| *e.output.as_bytes());
@@ -62,9 +64,31 @@ pub fn inspect(ctx: &mut Ctx, blob: &[u8], punctured: &BTreeSet<u8>, server: &pp
             if reference.is_some() {
                 return Err(Violation::new("c11.ancestor_retained", "reference_evaluates", format!("{}: the exported seeds alone evaluate punctured tag {}", when, x)));
             }
-        } else if reference != real {
-            return Err(Violation::new("c11.model_mismatch", "model_mismatch", format!("{}: independent descent from the exported seeds disagrees with the server for live tag {} (server answered: {})", when, x, real.is_some())));
+        } else {
+            live += 1;
+            if real.is_none() {
+                return Err(Violation::new("c11.cover", "live_tag_refused", format!("{}: the server refuses live tag {}", when, x)));
+            }
+            if reference != real {
+                disagree.push(x);
+            }
         }
+    }
+    if !disagree.is_empty() {
+        if disagree.len() == live {
+            // systematic disagreement = the PRG / key derivation was changed as a whole (e.g. another
+            // domain-separation label): that does not break the property. Recorded, not reported;
+            // exporter/importer agreement is C14's check.
+            ctx.stats.probe("independent_descent_systematically_differs");
+        } else {
+            return Err(Violation::new(
+                "c11.model_mismatch",
+                "model_mismatch",
+                format!("{}: for {} of {} live tags (e.g. {}) the seeds in the exported state do not produce the server's answers: the retained material is not what the key holder evaluates with", when, disagree.len(), live, disagree[0]),
+            ));
+        }
+    } else {
+        ctx.stats.probe("independent_descent_agrees");
     }
     ctx.stats.probe("states_inspected");
     Ok(st)
@@ -183,6 +207,6 @@ impl Property for C11 {
         vec!["the mirror struct follows the field order of GGMPuncturableKey / ServerKeyState; a layout change is reported as a harness error (exit 2), not as a property violation", "memory zeroisation of dropped seeds is not observable here"]
     }
     fn key_probes(&self) -> Vec<&'static str> {
-        vec!["states_inspected", "tamper_attacks_refused", "importer_took_over", "all_256_punctured_state_inspected"]
+        vec!["states_inspected", "tamper_attacks_refused", "importer_took_over", "all_256_punctured_state_inspected", "independent_descent_agrees"]
     }
 }
